@@ -299,8 +299,12 @@ ddpbool ddp_string_equal(ddpstring *str1, ddpstring *str2) {
 	if (str1 == str2) {
 		return true;
 	}
-	if (ddp_strlen(str1) != ddp_strlen(str2)) {
+	ddpint len = ddp_strlen(str1);
+	if (len != ddp_strlen(str2)) {
 		return false; // if the length is different, it's a quick false return
 	}
-	return memcmp(str1->str, str2->str, str1->cap) == 0;
+	if (len == 0) {
+		return true;
+	}
+	return memcmp(str1->str, str2->str, len) == 0;
 }
